@@ -12,7 +12,8 @@ def run(tier, seed):
     for o in _fr.renderer_ownership_obligations():
         rep.obs.append(Ob(oid=f"C15/{o['oid']}", kind="FRAME", func=o["func"], backend="frame", verdict=o["verdict"], info=o["info"], line=o["line"], solver="ownership analysis"))
     lines_universe(rep, "vf.oracles:c15_roundtrip", tier, "Token.as_dict/from_dict, SyntaxTreeNode, RendererHTML.render",
-                   "dict round trip (both attribute formats) equal and renders equal; tree round trip, walk order, parent/sibling links; render twice equal, tokens unchanged (except image alt)")
+                   "dict round trip (both attribute formats) equal and renders equal; tree round trip, walk order, parent/sibling links; render twice equal, tokens unchanged (except image alt)",
+                   cfgs=None if tier == "quick" else ["commonmark", "cm+table+strike"])
     inline_universe(rep, "vf.oracles:c15_roundtrip", tier, "same", "same contract on inline-heavy inputs", quick_k=2, thorough_k=3)
     from ..propbase import gen_universe
     gen_universe(rep, "vf.oracles:c15_roundtrip", "vf.universe:gen_emph", tier, "same", "same contract on delimiter-heavy inputs, incl. a configuration without fragments_join (token levels not recomputed)",
